@@ -356,7 +356,7 @@ finding `cleanup-dangling-parent`, established by fixes/C11-cleanup-dangling-par
   `getAllHeadCandidates` (`_get_all_head_candidates`)                                    proved from I1 (`aged_candidates_agree`)
   `isReferenceActivated`, `isChildActivated` (parent look-ups of activated flows)        proved from I2 (`aged_activation_lookups_agree`)
   `pushEvent`, `pushLeftEvent`, `modInstX` on a kept uid with a relation-respecting update   proved (`aged_push_event`, `aged_mod_inst`)
-  index writes `setFlowStatus`/`dropHeads`/`clearHeads`/`delHead`/`rmHead` (`applyOp`)    proved (`aged_simple_index_write`)
+  `applyOp op` for EVERY index write about a kept instance (all of `CoreIndex.Op` but `removeInst`) proved (`aged_index_write`, `aged_simple_index_write`)
   `setFlowStatus` (status + time stamp), `dropHeads` (`heads.clear()` + unregister)      proved (`aged_set_flow_status`, `aged_drop_heads`)
   `abortFlow`: deactivation loop `for c in x.childFlowUids: getInstX? c`                 needs I2 + `releaseAction`, `failedEvent`/`flowObjOf`, `restartActivated`
                                                                                          (reads of kept records only: same pattern) — not reached;
@@ -411,6 +411,11 @@ theorem aged_mod_inst {rm : List FUid} {s s' : VM} (h : Aged rm s s') {f : FUid}
 
 theorem aged_simple_index_write {rm : List FUid} {s s' : VM} (h : Aged rm s s') {f : FUid} (hk : keepB rm f = true) {op : Op}
     (hop : SimpleOpOn f op) : Sim2 rm (fun _ _ => True) (applyOp op) (applyOp op) s s' := sim_applyOp_simple h hk hop
+
+/-- every index write (`CoreIndex.Op` except the clean-up's own `removeInst`: positions, statuses, forks, head removal,
+    main restart, flow status, new instance) about a kept instance: same guard outcome, related states -/
+theorem aged_index_write {rm : List FUid} {s s' : VM} (h : Aged rm s s') (op : Op) (hk : keepB rm (opTarget op) = true)
+    (hr : isRemove op = false) : Sim2 rm (fun _ _ => True) (applyOp op) (applyOp op) s s' := sim_applyOp h op hk hr
 
 theorem aged_set_flow_status {rm : List FUid} {s s' : VM} (h : Aged rm s s') {f : FUid} (hk : keepB rm f = true) (st : CoreIndex.FlowStatus) :
     Sim2 rm (fun _ _ => True) (setFlowStatus f st) (setFlowStatus f st) s s' := sim_setFlowStatus h hk st
@@ -479,6 +484,8 @@ example : ActParentsKept ["d"] sLive := by
     simp [sLive, OMap.lookup, Ne.symm hm, Ne.symm hd] at hl
 
 example : keepB ["d"] "m" = true ∧ SimpleOpOn "m" (.setFlowStatus "m" .started) := ⟨by decide, .inl ⟨_, rfl⟩⟩
+example : keepB ["d"] (opTarget (.setPos "m" "h0" 1 (some "E2"))) = true ∧ isRemove (.setPos "m" "h0" 1 (some "E2")) = false :=
+  ⟨by decide, rfl⟩
 
 end T3proved
 
